@@ -4,13 +4,20 @@ import json, subprocess, sys, re
 b = json.load(open('/root/.vp/BASELINE.json'))
 stable = set(b['stable_pass'])
 root = sys.argv[1] if len(sys.argv) > 1 else "/repo"
-p = subprocess.run(f"cd {root} && cargo nextest run --workspace --no-fail-fast --test-threads 8 --offline 2>&1", shell=True, capture_output=True, text=True)
+p = subprocess.run(f"cd {root} && cargo nextest run --workspace --no-fail-fast --test-threads 8 --offline --tool-config-file vf:/verif/lib/nextest.toml --profile vf 2>&1", shell=True, capture_output=True, text=True)
 passed, failed = set(), set()
 for line in p.stdout.splitlines():
-    m = re.match(r"\s+(PASS|FAIL|SIGABRT|SIGSEGV|TIMEOUT|LEAK)\s+\[[^\]]*\]\s+(?:\(\s*\d+/\d+\)\s+)?(\S+)\s+(\S+)", line)
+    m = re.match(r"\s+(PASS|FAIL|SIGABRT|SIGSEGV|TIMEOUT|LEAK|FLAKY \d+/\d+|TRY \d+ \w+)\s+\[[^\]]*\]\s+(?:\(\s*\d+/\d+\)\s+)?(\S+)\s+(\S+)", line)
     if m:
         name = f"{m.group(2)}::{m.group(3)}"
-        (passed if m.group(1) in ("PASS", "LEAK") else failed).add(name)
+        st = m.group(1)
+        if st.startswith("TRY"):
+            continue  # an intermediate attempt of a retried test; its final line decides
+        if st in ("PASS", "LEAK") or st.startswith("FLAKY"):
+            passed.add(name)
+            failed.discard(name)
+        elif name not in passed:
+            failed.add(name)
 missing = sorted(t for t in stable if t not in passed)
 print(f"passed={len(passed)} failed={len(failed - set(x for x in passed))} stable={len(stable)} stable_not_passed={len(missing)}")
 for t in missing[:40]:
